@@ -19,6 +19,10 @@ static bool doRoundTrip(Interp& I, const Step& s)
     if (!I.liveSlot(a) || !I.liveSlot(t) || u < 0 || u > 63 || !I.okForest(fa) || W.slots[size_t(a)].f != fa) { I.skip("rt-operands"); return true; }
     const int ft = W.slots[size_t(t)].f;
     if (!I.sameShape(fa, ft)) { I.skip("rt-shape"); return true; }
+    if (W.fs[ft].rel && W.fs[ft].red == 'I' && W.fs[ft].label != 'P' && W.fs[fa].label == 'P' && !I.strictErrors) {
+        I.R.labels.add("excluded.copy_identity_zero_to_evplus");
+        return true;
+    }
     ModelRes M = modelUnary(W, "COPY", ft, W.slots[size_t(t)].T, fa);
     if (!M.defined) { I.skip(M.skipwhy); return true; }
     unary_operation* uop = nullptr;
@@ -32,12 +36,14 @@ static bool doRoundTrip(Interp& I, const Step& s)
     const Table& TA = W.slots[size_t(a)].T;
     bool lossless = true;
     for (size_t i = 0; i < TA.size(); i++) if (TA[i].isUn() || M.T[i].isUn() || !exactVal(TA[i], M.T[i])) { lossless = false; break; }
+    I.R.labels.add("op.COPY");
+    if (!I.produce(u, fa, e, M.T, "COPY(back)")) return false;
     if (lossless) {
         I.R.labels.add("roundtrip_lossless");
-        if (!(*e == *W.slots[size_t(a)].e)) { delete e; return I.fail("C10.roundtrip", "copy there and back is not the identical edge although no information is lost"); }
+        if (!(*W.slots[size_t(u)].e == *W.slots[size_t(a)].e))
+            return I.fail("C10.roundtrip", "copy there and back denotes the same function but is not the identical edge");
     } else I.R.labels.add("roundtrip_lossy");
-    I.R.labels.add("op.COPY");
-    return I.produce(u, fa, e, M.T, "COPY(back)");
+    return true;
 }
 
 bool Interp::doExtra(const Step& s, bool& handled)
